@@ -111,6 +111,7 @@ type h2PeerConn struct {
 }
 
 type h2World struct {
+	dialDelay time.Duration // how long the relay's outbound dial (Connect) takes
 	vt       *vhT
 	n        *simNet
 	srv      *Server
@@ -190,6 +191,9 @@ func (g *h2Gen) AllocateListener(c AllocateListenerConfig) (net.Listener, net.Ad
 	return l, l.addr, nil
 }
 func (g *h2Gen) AllocateConn(c AllocateConnConfig) (net.Conn, error) {
+	if g.w.dialDelay > 0 { // a peer that is slow to answer the TCP handshake
+		time.Sleep(g.w.dialDelay)
+	}
 	if g.w.dialFail {
 		return nil, fmt.Errorf("simgen: dial failure injected")
 	}
